@@ -126,6 +126,38 @@ def check(prop: str, tier: str) -> int:
     return 1 if violations else (2 if errors else 0)
 
 
+def sweep() -> int:
+    """Development aid (not a registered check): every rule once, verdict per property as `check --tier thorough` would
+    give it, without writing evidence or replay files."""
+    load_rules()
+    rids: List[str] = []
+    for spec in PROPS.values():
+        for r in list(spec["quick"]) + list(spec.get("thorough", [])):
+            if r not in rids:
+                rids.append(r)
+    model, flow, results, errors = run_rules(rids, "thorough")
+    worst = 0
+    for prop, spec in PROPS.items():
+        mine = list(spec["quick"]) + list(spec.get("thorough", []))
+        known = known_for(prop)
+        lines = []
+        code = 0
+        for rid in mine:
+            for o in results[rid].obs:
+                if not o.is_witness and o.status == VIOLATED and o.key not in known:
+                    lines.append(f"{o.file}:{o.line} {o.rule} {o.where}: {o.msg}")
+                    code = 1
+            if rid in errors:
+                msg = errors[rid]
+                lines.append(f"ANALYSIS-ERROR {msg if msg.startswith('rule ') else 'rule ' + rid + ': ' + msg}".splitlines()[0])
+                code = code or 2
+        print(f"PROP {prop} exit={code}")
+        for ln in lines:
+            print("  " + ln)
+        worst = max(worst, 1 if code == 1 else 0) or (2 if code == 2 and worst == 0 else worst)
+    return worst
+
+
 def replay(path: str) -> int:
     import json
     with open(path) as f:
@@ -161,6 +193,8 @@ def main(argv=None) -> int:
             return check(prop, tier)
         if cmd == "replay":
             return replay(argv[1])
+        if cmd == "sweep":
+            return sweep()
         if cmd == "rule":
             load_rules()
             from .report import RULES as _R
